@@ -291,7 +291,7 @@ pub fn run(ctx: &mut Ctx, replay: Option<&Value>) {
         run_case(ctx, case, false);
         return;
     }
-    let n = ctx.count(800, 6_000);
+    let n = ctx.count(800, 1_500);
     for i in 0..n {
         let mut rng = Rng::fork(ctx.seed, i);
         let case = gen_ref_case(&mut rng, ctx.tier_thorough, 0);
